@@ -224,10 +224,14 @@ class H5Group:
             # del self.group
             self.group = None
 
-    def delete_all(self, eid):
+    def delete_all(self, eid, h5objs=None):
         """
         Deletes all references to a given list of objects, identified by their
         entity_id, below the current object.
+
+        If h5objs (the HDF5 objects of the entities) is given, only links to
+        these very objects are removed: a copy made with keep_id=True carries
+        the same entity_id but is a different object and must survive.
         """
         # Use visit_items to traverse groups and check their children.
         # visit_items visits each item only once, so instead of checking
@@ -243,6 +247,9 @@ class H5Group:
             grp = self.create_from_h5obj(obj)
             for child in grp:
                 if child.get_attr("entity_id") in eid:
+                    if h5objs is not None and not any(child.h5obj == o
+                                                      for o in h5objs):
+                        continue
                     del grp[child.name]
 
         self._group.visititems(delete_by_id)
